@@ -182,7 +182,7 @@ func VerifPointResetArbitrary() {
 	verifnd.Reach("reference-built")
 
 	st := vc15StalePoint()
-	PutPoint(st) // the real release path: a point that a run left in any state is handed back
+	pointPool.Put(st)
 	nm := []int{0, 1, 5}[verifnd.Choice(3)]
 	var stale []*TFMeta
 	for i := 0; i < nm; i++ {
